@@ -93,11 +93,11 @@ func (p *PeerSpec) beh(h int64) BehAt {
 }
 
 // classOf fixes the class of every case index (fixed-length lists per tier).
-var classPattern = []string{"control", "tip", "quorum", "mixed", "nilfork", "tip", "inflated", "second", "tip", "mixed",
-	"control", "quorum", "mixed", "inflated", "nilfork", "second", "tip", "mixed", "quorum", "second"}
+var classPattern = []string{"control", "tip", "quorum", "mixed", "nilfork", "replica", "inflated", "second", "tip", "mixed",
+	"control", "quorum", "replica", "inflated", "nilfork", "second", "tip", "mixed", "quorum", "second"}
 
 // the quick tier's v1 / v2 cases
-var otherVersionsPattern = []string{"quorum", "second", "second", "quorum", "second", "nilfork", "tip", "second", "quorum", "mixed"}
+var otherVersionsPattern = []string{"quorum", "second", "replica", "quorum", "second", "nilfork", "tip", "replica", "quorum", "second"}
 
 // The deciding target is v0.  The same peers also drive v1 and v2: a few cases of the boundary /
 // second-block / fork classes in the quick tier, the whole pattern in the thorough tier.
@@ -438,6 +438,10 @@ func quorumTarget(total, variant int64) int64 {
 	return t
 }
 
+// replicated-signature commits: the byzantine validator's one precommit in all slots / in just enough
+// slots, each copy naming the byzantine validator / the slot's owner
+var replicaOps = []string{"all-byzAddr", "enough-byzAddr", "all-ownerAddr", "enough-ownerAddr"}
+
 // invalidating alterations: every one of them leaves a non-absent slot whose signature does not
 // verify for what the slot claims
 var invalidatingOps = map[string]bool{"forge": true, "tsShift": true, "dup": true, "flagNil": true, "fRound": true, "fOtherBlock": true,
@@ -679,6 +683,19 @@ func genScenario(c *verdict.Ctx, idx int) (*Scenario, *world) {
 	if sc.Class == "tip" {
 		sc.Chain.NonCommit = []float64{0, 0.5, 0.9}[r.Intn(3)]
 	}
+	replicaStep := 0
+	if sc.Class == "replica" {
+		replicaStep = 1 + r.Intn(sc.Chain.Len-2)
+		if r.Intn(2) == 0 {
+			replicaStep = sc.Chain.Len - 2
+		}
+		if r.Intn(2) == 0 {
+			sc.Chain.ForceFail = []int{replicaStep}
+		}
+		if r.Intn(2) == 0 { // e.g. 1 byzantine validator of 4 equal ones
+			sc.Chain.Powers = []int64{10, 10, 10, 10}
+		}
+	}
 	quorumStep := 0
 	if sc.Class == "quorum" {
 		// Validator sets at the quorum boundary: total power = 2 (mod 3) in three of five cases (5, 8,
@@ -825,6 +842,30 @@ func genScenario(c *verdict.Ctx, idx int) (*Scenario, *world) {
 		if sc.NodeStart >= g-1 {
 			sc.NodeStart = 0
 		}
+	case "replica":
+		// As in "nilfork", g and g+1 can only come from the liar: a forged block X at g (or the canonical
+		// one), and a block g+1 whose LastCommit has the right size, height, round and block id but
+		// carries ONE byzantine validator's single valid precommit copied into all slots, or into just
+		// enough of them to pass a tally that does not bind a signature to its slot's validator.
+		g := w.first + int64(replicaStep)
+		sc.Peers = append(sc.Peers, honest("h0", g-1))
+		if r.Intn(3) == 0 {
+			sc.Peers = append(sc.Peers, honest("h1", g-1))
+		}
+		p := PeerSpec{Name: "liar0", Base: w.first, Height: T}
+		if r.Intn(3) == 0 && g+1 < T {
+			p.Height = g + 1 + r.Int63n(T-g)
+		}
+		op := replicaOps[r.Intn(len(replicaOps))]
+		if r.Intn(4) == 0 {
+			p.Beh = []BehAt{{H: g + 1, Kind: "replicatedWeak", Op: op, Arg: r.Int63n(1 << 30)}}
+		} else {
+			p.Beh = []BehAt{{H: g, Kind: "forkBlock"}, {H: g + 1, Kind: "replicatedFork", Op: op, Arg: r.Int63n(1 << 30)}}
+		}
+		sc.Peers = append(sc.Peers, p)
+		if sc.NodeStart >= g-1 {
+			sc.NodeStart = 0
+		}
 	case "second":
 		// The bad block is the SECOND of the verified pair and comes from another peer than the first:
 		// honest A ends at k, hostile X serves k+1 (its base is k+1, or it is picked by assignment) with
@@ -845,7 +886,9 @@ func genScenario(c *verdict.Ctx, idx int) (*Scenario, *world) {
 			x.Base = w.first
 		}
 		b := BehAt{H: k + 1, Kind: "altered"}
-		switch r.Intn(6) {
+		switch r.Intn(7) {
+		case 6:
+			b = BehAt{H: k + 1, Kind: "replicatedWeak", Op: replicaOps[r.Intn(len(replicaOps))], Arg: r.Int63n(1 << 30)}
 		case 0:
 			b.Kind = "minority"
 		case 1:
@@ -882,6 +925,11 @@ func genScenario(c *verdict.Ctx, idx int) (*Scenario, *world) {
 					p.Beh = setBeh(p.Beh, BehAt{H: g, Kind: "forkBlock"})
 					p.Beh = setBeh(p.Beh, BehAt{H: g + 1, Kind: "nilBackedFork", Arg: r.Int63n(1 << 30)})
 				}
+			}
+			if r.Intn(3) == 0 && p.Height-1 > w.first {
+				g := w.first + 1 + r.Int63n(p.Height-w.first-1)
+				p.Beh = setBeh(p.Beh, BehAt{H: g, Kind: "forkBlock"})
+				p.Beh = setBeh(p.Beh, BehAt{H: g + 1, Kind: "replicatedFork", Op: replicaOps[r.Intn(len(replicaOps))], Arg: r.Int63n(1 << 30)})
 			}
 			if sc.Class == "timeout" {
 				// silence / NoBlockResponse on a few heights, or a status above what is served
